@@ -9,6 +9,7 @@ import (
 
 	"connectrpc.com/conformance/internal"
 	conformancev1 "connectrpc.com/conformance/internal/gen/proto/go/connectrpc/conformance/v1"
+	"connectrpc.com/conformance/internal/tracer"
 )
 
 type verifC12Stderr struct {
@@ -43,6 +44,12 @@ type VerifC12Real struct {
 // VerifC12StartReal starts such a server. serverCert/serverKey are used when useTLS;
 // clientCACert non-empty makes the server require and verify a client certificate.
 func VerifC12StartReal(httpVersion int32, useTLS bool, serverCert, serverKey, clientCACert []byte) (*VerifC12Real, error) {
+	return VerifC12StartRealTraced(httpVersion, useTLS, serverCert, serverKey, clientCACert, false)
+}
+
+// VerifC12StartRealTraced: traced = the server is given a tracer.Tracer, as when the runner is
+// started with --trace (createServer then installs tracer.TracingHandler around the checks).
+func VerifC12StartRealTraced(httpVersion int32, useTLS bool, serverCert, serverKey, clientCACert []byte, traced bool) (*VerifC12Real, error) {
 	req := &conformancev1.ServerCompatRequest{
 		Protocol:    conformancev1.Protocol_PROTOCOL_CONNECT,
 		HttpVersion: conformancev1.HTTPVersion(httpVersion),
@@ -53,7 +60,11 @@ func VerifC12StartReal(httpVersion int32, useTLS bool, serverCert, serverKey, cl
 		req.ClientTlsCert = clientCACert
 	}
 	stderr := &verifC12Stderr{}
-	svr, _, err := createServer(req, "127.0.0.1:0", "", "", true, internal.NewPrinter(stderr), nil)
+	var trace *tracer.Tracer
+	if traced {
+		trace = &tracer.Tracer{}
+	}
+	svr, _, err := createServer(req, "127.0.0.1:0", "", "", true, internal.NewPrinter(stderr), trace)
 	if err != nil {
 		return nil, err
 	}
